@@ -137,7 +137,7 @@ def run(ck, m):
     ck.need(fit is not None and fit.orelse, "_valid_size: FIT branches not found")
     SW = {"_height_px": "_width_px", "_width_px": "_height_px", "height_px": "width_px", "width_px": "height_px", "frame_height": "frame_width", "frame_width": "frame_height"}
     a = [norm(s) for s in fit.body]
-    b = [norm(rename(s, SW)).replace("/ self._pixel_ratio", "* self._pixel_ratio") for s in fit.orelse]
+    b = [norm(rename(s, SW)).replace("/ self._pixel_ratio", "* self._pixel_ratio").replace("/= self._pixel_ratio", "*= self._pixel_ratio") for s in fit.orelse]
     ck.ob("R5", fit, a == b, "the two FIT branches (width- vs height-constrained) are not mirror images under width<->height: "
           + "; ".join(f"`{x}` vs `{y}`" for x, y in zip(a, b) if x != y), stmt="_valid_size: FIT branches mirror each other")
     ck.ob("R5", fit, any("min(_height_px, frame_height)" in x for x in a), "the adjusted dimension must be clamped to its own frame dimension", stmt="_valid_size: clamp to the matching frame dimension")
